@@ -1,4 +1,5 @@
 import Toq.Proofs.Discrim
+import Toq.Proofs.Metrics
 /-!
 # C10 — quantum state discrimination: weak duality and soundness of the certificate checkers
 
@@ -10,6 +11,15 @@ rationals; `EMat.toM` is the denotation of an exact matrix, `Rat.cast` that of a
   over POVMs `M`; dual: minimise `Re tr Y` subject to `Y − p_i ρ_i ⪰ 0`;
 * unambiguous discrimination in Gram form: maximise `Σ_i p_i q_i` subject to `q ≥ 0`,
   `G − diag q ⪰ 0`; dual: minimise `Re tr(G Z)` subject to `Z ⪰ 0`, `Re Z_ii ≥ p_i`.
+
+First part: weak duality and soundness of the four certificate checkers.  Second part (after the checker
+examples): the closed forms and laws the property states, for all dimensions and numbers of states –
+value `≥` every prior and `≤ 1`, `= 1` for mutually orthogonal states, invariance under a common unitary and
+under relabelling (as equality of the sets of attainable values `minErrValues`), the pretty good measurement is a
+POVM below every dual bound, the Helstrom formula for two states (with the trace norm of C13), and for the
+Gram-form unambiguous program: value `0` for linearly dependent states, `≤ Σ p_i`, and `1 − |⟨ψ|φ⟩|` for two
+equiprobable pure states.  Not proved (cited; checked numerically by the harness): unambiguous `≤` minimum-error
+value (needs Eldar's reduction of the Gram program to a POVM), Barnum–Knill `P_opt² ≤ P_pgm`.
 -/
 
 open Matrix
@@ -175,5 +185,429 @@ example : checkUnambDual exG [1/2, 1/2] (c2 ⟨1/2, 0⟩ ⟨0, -1/2⟩ ⟨0, 1/2
     (c2 ⟨7/10, 0⟩ ⟨0, 0⟩ ⟨0, 7/10⟩ ⟨0, 0⟩) = some (2/5) := by decide +kernel
 
 end Examples
+
+/-! ## Elementary bounds on the minimum-error value -/
+
+/-- the set of success probabilities attained by measurements on the ensemble `(ρ, p)`; the
+minimum-error discrimination value is its supremum -/
+def minErrValues (ρ : Fin k → Matrix (Fin d) (Fin d) ℂ) (p : Fin k → ℝ) : Set ℝ :=
+  {v | ∃ M : Fin k → Matrix (Fin d) (Fin d) ℂ, IsPOVM M ∧ successProb ρ p M = v}
+
+/-- the set of objective values of feasible points of the unambiguous (Gram-form) program -/
+def unambValues (G : Matrix (Fin k) (Fin k) ℂ) (p : Fin k → ℝ) : Set ℝ :=
+  {v | ∃ q : Fin k → ℝ, UnambFeasible G q ∧ ∑ i, p i * q i = v}
+
+/-- The success probability of every measurement is non-negative (states PSD, priors `≥ 0`). -/
+theorem minErr_nonneg (ρ : Fin k → Matrix (Fin d) (Fin d) ℂ) (p : Fin k → ℝ)
+    (M : Fin k → Matrix (Fin d) (Fin d) ℂ) (hρ : ∀ i, (ρ i).PosSemidef) (hp : ∀ i, 0 ≤ p i)
+    (hM : IsPOVM M) : 0 ≤ successProb ρ p M :=
+  me_nonneg ρ p M hρ hp hM.1
+
+/-- **At least the largest prior.**  For a unit-trace state `ρ_j` the measurement "always answer `j`"
+(`M_j = 1`, the others `0`) is a POVM with success probability exactly `p_j`; hence the optimum is at least
+every prior, in particular the largest one. -/
+theorem minErr_ge_prior (ρ : Fin k → Matrix (Fin d) (Fin d) ℂ) (p : Fin k → ℝ) (j : Fin k)
+    (hj : (ρ j).trace = 1) :
+    ∃ M : Fin k → Matrix (Fin d) (Fin d) ℂ, IsPOVM M ∧ successProb ρ p M = p j := by
+  refine ⟨meConstPovm j, ⟨meConstPovm_psd j, meConstPovm_sum j⟩, ?_⟩
+  unfold successProb
+  rw [meConstPovm_value, hj]
+  simp
+
+/-- Consequently every dual-feasible `Y` – in particular every upper bound `hi` accepted by the dual checker –
+has `Re tr Y ≥ p_j` for every unit-trace state `ρ_j`. -/
+theorem minErr_dual_ge_prior (ρ : Fin k → Matrix (Fin d) (Fin d) ℂ) (p : Fin k → ℝ) (j : Fin k)
+    (hj : (ρ j).trace = 1) (Y : Matrix (Fin d) (Fin d) ℂ) (hY : MinErrDualFeasible ρ p Y) :
+    p j ≤ Y.trace.re := by
+  obtain ⟨M, hM, hv⟩ := minErr_ge_prior ρ p j hj
+  rw [← hv]
+  exact minErr_weak_duality ρ p M Y hM hY
+
+/-- For PSD states and non-negative priors the average state `Y = Σ_j p_j ρ_j` is dual feasible. -/
+theorem minErr_sum_dual_feasible (ρ : Fin k → Matrix (Fin d) (Fin d) ℂ) (p : Fin k → ℝ)
+    (hρ : ∀ i, (ρ i).PosSemidef) (hp : ∀ i, 0 ≤ p i) :
+    MinErrDualFeasible ρ p (∑ j, (p j : ℂ) • ρ j) :=
+  me_sum_dual_feasible ρ p hρ hp
+
+/-- **At most one.**  For density operators (PSD, unit trace) and a probability vector `p`, every measurement
+succeeds with probability at most `1` (dual certificate `Y = Σ_j p_j ρ_j`, `tr Y = 1`). -/
+theorem minErr_le_one (ρ : Fin k → Matrix (Fin d) (Fin d) ℂ) (p : Fin k → ℝ)
+    (M : Fin k → Matrix (Fin d) (Fin d) ℂ) (hρ : ∀ i, (ρ i).PosSemidef)
+    (htr : ∀ i, (ρ i).trace = 1) (hp : ∀ i, 0 ≤ p i) (hsum : ∑ i, p i = 1) (hM : IsPOVM M) :
+    successProb ρ p M ≤ 1 := by
+  have := me_le_sum_trace ρ p M hρ hp hM.1 hM.2
+  simpa [successProb, htr, hsum] using this
+
+/-! ## Mutually orthogonal states are perfectly distinguishable -/
+
+/-- **Perfect discrimination with orthogonal projectors.**  Given Hermitian idempotents `Π_i` with
+`Π_i Π_j = 0` (`i ≠ j`) and `ρ_i Π_i = ρ_i`, the measurement `M_i = Π_i` (`i ≠ j₀`),
+`M_{j₀} = Π_{j₀} + (1 − Σ_l Π_l)` is a POVM with `ρ_i M_i = ρ_i`, so its success probability is
+`Σ_i p_i Re tr ρ_i` (`= 1` for normalised states and priors). -/
+theorem minErr_orthogonal_projectors (ρ Pr : Fin k → Matrix (Fin d) (Fin d) ℂ) (p : Fin k → ℝ)
+    (j0 : Fin k) (hH : ∀ i, (Pr i).IsHermitian) (hI : ∀ i, Pr i * Pr i = Pr i)
+    (hO : ∀ i j, i ≠ j → Pr i * Pr j = 0) (hρ : ∀ i, ρ i * Pr i = ρ i) :
+    ∃ M : Fin k → Matrix (Fin d) (Fin d) ℂ, IsPOVM M ∧ (∀ i, ρ i * M i = ρ i) ∧
+      successProb ρ p M = ∑ i, p i * (ρ i).trace.re := by
+  refine ⟨meProjPovm Pr j0, ⟨meProjPovm_psd Pr j0 hH hI hO, meProjPovm_sum Pr j0⟩,
+    meProjPovm_mul ρ Pr j0 hO hρ, ?_⟩
+  unfold successProb
+  exact Finset.sum_congr rfl fun i _ => by rw [meProjPovm_mul ρ Pr j0 hO hρ i]
+
+/-- **Mutually orthogonal states: value 1.**  For `k ≥ 1` Hermitian states with `ρ_i ρ_j = 0` for `i ≠ j`
+(the projectors are the support projectors `ρ_i ρ_i⁺`, obtained from the functional calculus) some POVM
+has `ρ_i M_i = ρ_i` for every `i` and success probability `Σ_i p_i Re tr ρ_i`. -/
+theorem minErr_orthogonal_attained (ρ : Fin k → Matrix (Fin d) (Fin d) ℂ) (p : Fin k → ℝ)
+    (j0 : Fin k) (hH : ∀ i, (ρ i).IsHermitian) (hO : ∀ i j, i ≠ j → ρ i * ρ j = 0) :
+    ∃ M : Fin k → Matrix (Fin d) (Fin d) ℂ, IsPOVM M ∧ (∀ i, ρ i * M i = ρ i) ∧
+      successProb ρ p M = ∑ i, p i * (ρ i).trace.re :=
+  minErr_orthogonal_projectors ρ (fun i => meSupp (ρ i)) p j0
+    (fun i => meSupp_isHermitian (hH i)) (fun i => meSupp_idem (hH i))
+    (fun i j hij => meSupp_mul_meSupp (hH i) (hO i j hij)) (fun i => mul_meSupp (hH i))
+
+/-- **Mutually orthogonal density operators with a probability vector: the optimum is exactly 1** (it is
+attained, and no measurement exceeds it). -/
+theorem minErr_orthogonal_eq_one (ρ : Fin k → Matrix (Fin d) (Fin d) ℂ) (p : Fin k → ℝ)
+    (hρ : ∀ i, (ρ i).PosSemidef) (htr : ∀ i, (ρ i).trace = 1) (hp : ∀ i, 0 ≤ p i)
+    (hsum : ∑ i, p i = 1) (hO : ∀ i j, i ≠ j → ρ i * ρ j = 0) :
+    IsGreatest (minErrValues ρ p) 1 := by
+  constructor
+  · have hk : 0 < k := by
+      rcases Nat.eq_zero_or_pos k with h | h
+      · subst h; simp at hsum
+      · exact h
+    obtain ⟨M, hM, -, hv⟩ := minErr_orthogonal_attained ρ p ⟨0, hk⟩ (fun i => (hρ i).isHermitian) hO
+    refine ⟨M, hM, ?_⟩
+    rw [hv]
+    simp [htr, hsum]
+  · rintro v ⟨M, hM, rfl⟩
+    exact minErr_le_one ρ p M hρ htr hp hsum hM
+
+/-! ## Invariance under a common unitary and under relabelling -/
+
+/-- the ensemble or the measurement rotated by a common `U` -/
+def rot (U : Matrix (Fin d) (Fin d) ℂ) (A : Fin k → Matrix (Fin d) (Fin d) ℂ) :
+    Fin k → Matrix (Fin d) (Fin d) ℂ := fun i => U * A i * Uᴴ
+
+/-- Conjugating the states and the measurement by the same unitary `U` maps POVMs to POVMs and preserves
+the success probability. -/
+theorem minErr_unitary_invariant (U : Matrix (Fin d) (Fin d) ℂ)
+    (hU : U ∈ Matrix.unitaryGroup (Fin d) ℂ) (ρ : Fin k → Matrix (Fin d) (Fin d) ℂ) (p : Fin k → ℝ)
+    (M : Fin k → Matrix (Fin d) (Fin d) ℂ) (hM : IsPOVM M) :
+    IsPOVM (rot U M) ∧ successProb (rot U ρ) p (rot U M) = successProb ρ p M := by
+  have h1 : Uᴴ * U = 1 := by
+    simpa [Matrix.star_eq_conjTranspose] using Matrix.mem_unitaryGroup_iff'.mp hU
+  have h2 : U * Uᴴ = 1 := by
+    simpa [Matrix.star_eq_conjTranspose] using Matrix.mem_unitaryGroup_iff.mp hU
+  refine ⟨⟨fun i => me_conj_psd U (M i) (hM.1 i), ?_⟩, ?_⟩
+  · unfold rot
+    rw [me_conj_sum, hM.2, Matrix.mul_one, h2]
+  · unfold successProb rot
+    exact Finset.sum_congr rfl fun i _ => by rw [me_conj_trace_mul U (ρ i) (M i) h1]
+
+/-- **Unitary invariance of the value.**  The set of success probabilities attained by POVMs is the same for
+the rotated ensemble `U ρ_i Uᴴ` and for the original one (`M ↦ U M Uᴴ` is a bijection of the feasible
+set); in particular the optima agree. -/
+theorem minErr_values_unitary_invariant (U : Matrix (Fin d) (Fin d) ℂ)
+    (hU : U ∈ Matrix.unitaryGroup (Fin d) ℂ) (ρ : Fin k → Matrix (Fin d) (Fin d) ℂ) (p : Fin k → ℝ) :
+    minErrValues (rot U ρ) p = minErrValues ρ p := by
+  have h1 : Uᴴ * U = 1 := by
+    simpa [Matrix.star_eq_conjTranspose] using Matrix.mem_unitaryGroup_iff'.mp hU
+  have hU' : Uᴴ ∈ Matrix.unitaryGroup (Fin d) ℂ := by
+    have := Unitary.star_mem hU
+    simpa [Matrix.star_eq_conjTranspose] using this
+  have hback : rot Uᴴ (rot U ρ) = ρ := by
+    funext i
+    exact me_conj_conj U (ρ i) h1
+  ext v
+  constructor
+  · rintro ⟨M, hM, hv⟩
+    obtain ⟨hM', hv'⟩ := minErr_unitary_invariant Uᴴ hU' (rot U ρ) p M hM
+    rw [hback] at hv'
+    exact ⟨rot Uᴴ M, hM', hv'.trans hv⟩
+  · rintro ⟨M, hM, hv⟩
+    obtain ⟨hM', hv'⟩ := minErr_unitary_invariant U hU ρ p M hM
+    exact ⟨rot U M, hM', hv'.trans hv⟩
+
+/-- Relabelling states, priors and measurement operators by the same permutation `σ` maps POVMs to POVMs
+and preserves the success probability. -/
+theorem minErr_relabel_invariant (σ : Equiv.Perm (Fin k)) (ρ : Fin k → Matrix (Fin d) (Fin d) ℂ)
+    (p : Fin k → ℝ) (M : Fin k → Matrix (Fin d) (Fin d) ℂ) (hM : IsPOVM M) :
+    IsPOVM (M ∘ σ) ∧ successProb (ρ ∘ σ) (p ∘ σ) (M ∘ σ) = successProb ρ p M := by
+  refine ⟨⟨fun i => hM.1 (σ i), ?_⟩, ?_⟩
+  · rw [← hM.2]
+    exact Equiv.sum_comp σ M
+  · unfold successProb
+    exact Equiv.sum_comp σ fun i => p i * (ρ i * M i).trace.re
+
+/-- **Relabelling invariance of the value.**  The set of attained success probabilities of the relabelled
+ensemble `(ρ ∘ σ, p ∘ σ)` equals that of `(ρ, p)`; in particular the optima agree. -/
+theorem minErr_values_relabel_invariant (σ : Equiv.Perm (Fin k))
+    (ρ : Fin k → Matrix (Fin d) (Fin d) ℂ) (p : Fin k → ℝ) :
+    minErrValues (ρ ∘ σ) (p ∘ σ) = minErrValues ρ p := by
+  ext v
+  constructor
+  · rintro ⟨M, hM, hv⟩
+    obtain ⟨hM', hv'⟩ := minErr_relabel_invariant σ⁻¹ (ρ ∘ σ) (p ∘ σ) M hM
+    have e1 : (ρ ∘ σ) ∘ ⇑σ⁻¹ = ρ := by funext i; simp
+    have e2 : (p ∘ σ) ∘ ⇑σ⁻¹ = p := by funext i; simp
+    rw [e1, e2] at hv'
+    exact ⟨M ∘ ⇑σ⁻¹, hM', hv'.trans hv⟩
+  · rintro ⟨M, hM, hv⟩
+    obtain ⟨hM', hv'⟩ := minErr_relabel_invariant σ ρ p M hM
+    exact ⟨M ∘ σ, hM', hv'.trans hv⟩
+
+/-! ## Pretty good measurement -/
+
+/-- **The pretty good measurement is a POVM, so its success probability is below every dual bound.**  For PSD
+states, priors `≥ 0` and a Hermitian `S` with `S (Σ_i p_i ρ_i) S = 1` (`S = (Σ_i p_i ρ_i)^{-1/2}`), the
+operators `S (p_i ρ_i) S` form a POVM; its success probability is therefore a member of `minErrValues` and is
+at most `Re tr Y` for every dual-feasible `Y` (in particular at most every accepted `hi`). -/
+theorem pgm_le_dual (ρ : Fin k → Matrix (Fin d) (Fin d) ℂ) (p : Fin k → ℝ)
+    (S : Matrix (Fin d) (Fin d) ℂ) (hρ : ∀ i, (ρ i).PosSemidef) (hp : ∀ i, 0 ≤ p i) (hS : Sᴴ = S)
+    (hSPS : S * (∑ i, (p i : ℂ) • ρ i) * S = 1) :
+    IsPOVM (fun i => S * ((p i : ℂ) • ρ i) * S) ∧
+      ∀ Y, MinErrDualFeasible ρ p Y →
+        successProb ρ p (fun i => S * ((p i : ℂ) • ρ i) * S) ≤ Y.trace.re := by
+  have hP : IsPOVM (fun i => S * ((p i : ℂ) • ρ i) * S) :=
+    ⟨fun i => me_pgm_psd ρ p S hρ hp hS i, by rw [me_pgm_sum, hSPS]⟩
+  exact ⟨hP, fun Y hY => minErr_weak_duality ρ p _ Y hP hY⟩
+
+/-! ## Two states: the Helstrom bound -/
+
+/-- **Helstrom, upper half.**  For two states and any decomposition `p₀ρ₀ − p₁ρ₁ = P − Q` with `P, Q ⪰ 0`
+the operator `Y = p₁ρ₁ + P` (`= p₀ρ₀ + Q`) is dual feasible; hence every measurement succeeds with
+probability at most `p₁ Re tr ρ₁ + Re tr P`. -/
+theorem helstrom_upper (ρ : Fin 2 → Matrix (Fin d) (Fin d) ℂ) (p : Fin 2 → ℝ)
+    (P Q : Matrix (Fin d) (Fin d) ℂ) (hP : P.PosSemidef) (hQ : Q.PosSemidef)
+    (hPQ : (p 0 : ℂ) • ρ 0 - (p 1 : ℂ) • ρ 1 = P - Q)
+    (M : Fin 2 → Matrix (Fin d) (Fin d) ℂ) (hM : IsPOVM M) :
+    successProb ρ p M ≤ p 1 * (ρ 1).trace.re + P.trace.re := by
+  have hY : MinErrDualFeasible ρ p ((p 1 : ℂ) • ρ 1 + P) := by
+    refine Fin.forall_fin_two.mpr ⟨?_, ?_⟩
+    · have e : (p 1 : ℂ) • ρ 1 + P - (p 0 : ℂ) • ρ 0 = Q := by
+        have : (p 0 : ℂ) • ρ 0 = (p 1 : ℂ) • ρ 1 + (P - Q) := by rw [← hPQ]; abel
+        rw [this]; abel
+      rw [e]; exact hQ
+    · have e : (p 1 : ℂ) • ρ 1 + P - (p 1 : ℂ) • ρ 1 = P := by abel
+      rw [e]; exact hP
+  have := minErr_weak_duality ρ p M _ hM hY
+  rwa [Matrix.trace_add, Complex.add_re, Matrix.trace_smul, smul_eq_mul, Complex.re_ofReal_mul] at this
+
+/-- **Helstrom, lower half.**  For every test `0 ⪯ E ⪯ 1` the pair `(E, 1 − E)` is a POVM with success
+probability `p₁ Re tr ρ₁ + Re tr((p₀ρ₀ − p₁ρ₁) E)`.  (With `E` the projector on the positive part `P` of
+`p₀ρ₀ − p₁ρ₁` this is the bound of `helstrom_upper`.) -/
+theorem helstrom_lower (ρ : Fin 2 → Matrix (Fin d) (Fin d) ℂ) (p : Fin 2 → ℝ)
+    (E : Matrix (Fin d) (Fin d) ℂ) (hE : E.PosSemidef) (hE' : (1 - E).PosSemidef) :
+    IsPOVM ![E, 1 - E] ∧
+      successProb ρ p ![E, 1 - E]
+        = p 1 * (ρ 1).trace.re + (((p 0 : ℂ) • ρ 0 - (p 1 : ℂ) • ρ 1) * E).trace.re := by
+  refine ⟨⟨fun i => ?_, ?_⟩, ?_⟩
+  · fin_cases i
+    · exact hE
+    · exact hE'
+  · rw [Fin.sum_univ_two]; simp
+  · unfold successProb
+    rw [Fin.sum_univ_two]
+    exact me_two_value (ρ 0) (ρ 1) E (p 0) (p 1)
+
+/-- **Helstrom formula.**  For two Hermitian states the attainable success probabilities are exactly the
+numbers `½(p₀ tr ρ₀ + p₁ tr ρ₁) + ½ Re tr(W (p₀ρ₀ − p₁ρ₁))` with `W` a contraction (`−1 ⪯ W ⪯ 1`; the
+measurement is `((1+W)/2, (1−W)/2)`), so their least upper bound – the minimum-error value – is
+`½(p₀ tr ρ₀ + p₁ tr ρ₁) + ½ ‖p₀ρ₀ − p₁ρ₁‖₁`, with the trace norm in the max form of C13
+(`Toq.C13.traceNorm = Toq.Metrics.traceNormV`); for normalised states and priors: `½ + ½ ‖p₀ρ₀ − p₁ρ₁‖₁`. -/
+theorem helstrom_isLUB (ρ : Fin 2 → Matrix (Fin d) (Fin d) ℂ) (p : Fin 2 → ℝ)
+    (hρ : ∀ i, (ρ i).IsHermitian) :
+    IsLUB (minErrValues ρ p)
+      ((p 0 * (ρ 0).trace.re + p 1 * (ρ 1).trace.re) / 2
+        + Toq.Metrics.traceNormV ((p 0 : ℂ) • ρ 0 - (p 1 : ℂ) • ρ 1) / 2) := by
+  have hH : ((p 0 : ℂ) • ρ 0 - (p 1 : ℂ) • ρ 1).IsHermitian := by
+    refine Matrix.IsHermitian.sub ?_ ?_
+    · exact IsSelfAdjoint.smul (by simp [IsSelfAdjoint]) (hρ 0)
+    · exact IsSelfAdjoint.smul (by simp [IsSelfAdjoint]) (hρ 1)
+  constructor
+  · rintro v ⟨M, hM, rfl⟩
+    have hs : M 0 + M 1 = 1 := by rw [← hM.2, Fin.sum_univ_two]
+    obtain ⟨e0, e1⟩ := me_two_povm_eq (M 0) (M 1) hs
+    have hW : Toq.Metrics.IsContraction (M 0 - M 1) := me_two_contraction _ _ (hM.1 0) (hM.1 1) hs
+    have hv : successProb ρ p M = (p 0 * (ρ 0).trace.re + p 1 * (ρ 1).trace.re) / 2
+        + ((M 0 - M 1) * ((p 0 : ℂ) • ρ 0 - (p 1 : ℂ) • ρ 1)).trace.re / 2 := by
+      have := me_two_value_contraction (ρ 0) (ρ 1) (M 0 - M 1) (p 0) (p 1)
+      rw [← e0, ← e1] at this
+      unfold successProb
+      rw [Fin.sum_univ_two]
+      exact this
+    rw [hv]
+    have := Toq.Metrics.le_traceNormV_gen hH hW
+    linarith
+  · intro b hb
+    have h1 : ∀ x ∈ Toq.Metrics.tnSet ((p 0 : ℂ) • ρ 0 - (p 1 : ℂ) • ρ 1),
+        x ≤ 2 * (b - (p 0 * (ρ 0).trace.re + p 1 * (ρ 1).trace.re) / 2) := by
+      rintro x ⟨W, hW, rfl⟩
+      have hmem : (p 0 * (ρ 0).trace.re + p 1 * (ρ 1).trace.re) / 2
+          + (W * ((p 0 : ℂ) • ρ 0 - (p 1 : ℂ) • ρ 1)).trace.re / 2 ∈ minErrValues ρ p := by
+        refine ⟨![(1 / 2 : ℂ) • (1 + W), (1 / 2 : ℂ) • (1 - W)], ⟨fun i => ?_, ?_⟩, ?_⟩
+        · fin_cases i
+          · exact me_half_psd hW.2
+          · exact me_half_psd hW.1
+        · rw [Fin.sum_univ_two]; exact me_half_sum W
+        · unfold successProb
+          rw [Fin.sum_univ_two]
+          exact me_two_value_contraction (ρ 0) (ρ 1) W (p 0) (p 1)
+      have := hb hmem
+      linarith
+    have := csSup_le (Toq.Metrics.tnSet_nonempty _) h1
+    unfold Toq.Metrics.traceNormV
+    linarith
+
+/-- **Helstrom formula, normalised.**  For two unit-trace Hermitian states and priors `p₀ + p₁ = 1` the
+minimum-error value (least upper bound of the attainable success probabilities) is `½ + ½ ‖p₀ρ₀ − p₁ρ₁‖₁`. -/
+theorem helstrom_isLUB_normalised (ρ : Fin 2 → Matrix (Fin d) (Fin d) ℂ) (p : Fin 2 → ℝ)
+    (hρ : ∀ i, (ρ i).IsHermitian) (htr : ∀ i, (ρ i).trace = 1) (hp : p 0 + p 1 = 1) :
+    IsLUB (minErrValues ρ p)
+      (1 / 2 + Toq.Metrics.traceNormV ((p 0 : ℂ) • ρ 0 - (p 1 : ℂ) • ρ 1) / 2) := by
+  have := helstrom_isLUB ρ p hρ
+  rwa [htr, htr, Complex.one_re, mul_one, mul_one, hp] at this
+
+/-! ## Unambiguous discrimination (Gram form): dependent states, trivial bounds, two states -/
+
+/-- `q = 0` is feasible for a PSD Gram matrix: the unambiguous value is `≥ 0`. -/
+theorem unamb_zero_feasible (G : Matrix (Fin k) (Fin k) ℂ) (hG : G.PosSemidef) :
+    UnambFeasible G (fun _ => 0) :=
+  ⟨fun _ => le_refl _, by simpa using hG⟩
+
+/-- For priors `≥ 0` the dual point `Z = diag p` shows `Σ_i p_i q_i ≤ Σ_i p_i Re G_ii` for every feasible `q`
+(`= Σ_i p_i ≤ 1` for unit vectors). -/
+theorem unamb_le_sum_prior (G : Matrix (Fin k) (Fin k) ℂ) (p q : Fin k → ℝ) (hp : ∀ i, 0 ≤ p i)
+    (hq : UnambFeasible G q) : ∑ i, p i * q i ≤ ∑ i, p i * (G i i).re := by
+  rw [← ua_trace_mul_diagonal]
+  exact unamb_weak_duality G _ p q hq ⟨ua_diagonal_psd p hp, fun i => by simp⟩
+
+/-- **Linearly dependent states cannot be identified unambiguously.**  If the Gram matrix has a kernel vector
+`c` (`G c = 0`, i.e. `Σ_i c_i |ψ_i⟩ = 0`) with `c_j ≠ 0` – state `j` lies in the span of the others – then every
+feasible `q` has `q_j = 0`. -/
+theorem unamb_zero_of_dependent (G : Matrix (Fin k) (Fin k) ℂ) (q : Fin k → ℝ) (c : Fin k → ℂ)
+    (hq : UnambFeasible G q) (hc : G *ᵥ c = 0) (j : Fin k) (hj : c j ≠ 0) : q j = 0 :=
+  ua_zero_of_kernel G q c hq.1 hq.2 hc j hj
+
+/-- The same for the Gram matrix `VᴴV` of the columns of `V`: a linear relation `V c = 0` with `c_j ≠ 0`
+forces `q_j = 0`. -/
+theorem unamb_zero_of_dependent_vectors (V : Matrix (Fin d) (Fin k) ℂ) (q : Fin k → ℝ)
+    (c : Fin k → ℂ) (hq : UnambFeasible (Vᴴ * V) q) (hc : V *ᵥ c = 0) (j : Fin k) (hj : c j ≠ 0) :
+    q j = 0 := by
+  refine unamb_zero_of_dependent (Vᴴ * V) q c hq ?_ j hj
+  rw [← Matrix.mulVec_mulVec, hc, Matrix.mulVec_zero]
+
+/-- If every state is dependent on the others (for every `j` some kernel vector has `c_j ≠ 0`), the
+unambiguous value vanishes: every feasible point has objective `0`. -/
+theorem unamb_value_zero_of_all_dependent (G : Matrix (Fin k) (Fin k) ℂ) (p q : Fin k → ℝ)
+    (hq : UnambFeasible G q) (hdep : ∀ j, ∃ c : Fin k → ℂ, G *ᵥ c = 0 ∧ c j ≠ 0) :
+    ∑ i, p i * q i = 0 := by
+  refine Finset.sum_eq_zero fun j _ => ?_
+  obtain ⟨c, hc, hj⟩ := hdep j
+  rw [unamb_zero_of_dependent G q c hq hc j hj, mul_zero]
+
+/-- Gram matrix of two unit vectors with overlap `s = ⟨ψ|φ⟩` -/
+def gram2 (s : ℂ) : Matrix (Fin 2) (Fin 2) ℂ := !![1, s; (starRingEnd ℂ) s, 1]
+
+/-- **Two equiprobable pure states: value `1 − |⟨ψ|φ⟩|`.**  For the Gram matrix of two unit vectors with
+overlap `s` (`|s| ≤ 1`) and priors `(½, ½)`: `q = (1 − |s|, 1 − |s|)` is feasible with objective `1 − |s|`, and the
+dual point `Z = ½ [[1, −u], [−ū, 1]]`, `u = s/|s|`, shows that no feasible point does better. -/
+theorem unamb_two_states (s : ℂ) (hs : ‖s‖ ≤ 1) :
+    IsGreatest (unambValues (gram2 s) fun _ => 1 / 2) (1 - ‖s‖) := by
+  constructor
+  · refine ⟨fun _ => 1 - ‖s‖, ⟨fun _ => by linarith, ?_⟩, ?_⟩
+    · have h := ua_psd_two ‖s‖ s (le_refl _)
+      have e : gram2 s - Matrix.diagonal (fun _ : Fin 2 => (((1 - ‖s‖ : ℝ)) : ℂ))
+          = !![(‖s‖ : ℂ), s; (starRingEnd ℂ) s, (‖s‖ : ℂ)] := by
+        ext i j
+        fin_cases i <;> fin_cases j <;> simp [gram2]
+      rw [e]; exact h
+    · rw [Fin.sum_univ_two]; ring
+  · rintro v ⟨q, hq, rfl⟩
+    have hb : ‖-(s / (‖s‖ : ℂ)) / 2‖ ≤ 1 / 2 := by
+      have h2 : ‖(2 : ℂ)‖ = 2 := by simp
+      rw [norm_div, norm_neg, h2]
+      have := ua_norm_phase_le s
+      linarith
+    have hZ := ua_psd_two (1 / 2) (-(s / (‖s‖ : ℂ)) / 2) hb
+    have hd : UnambDualFeasible (fun _ : Fin 2 => (1 / 2 : ℝ))
+        !![((1 / 2 : ℝ) : ℂ), -(s / (‖s‖ : ℂ)) / 2;
+          (starRingEnd ℂ) (-(s / (‖s‖ : ℂ)) / 2), ((1 / 2 : ℝ) : ℂ)] := by
+      refine ⟨hZ, fun i => ?_⟩
+      fin_cases i <;> simp
+    have h := unamb_weak_duality (gram2 s) _ _ q hq hd
+    refine h.trans (le_of_eq ?_)
+    have h1 := ua_mul_conj_phase s
+    have h2 : (starRingEnd ℂ) s * (s / (‖s‖ : ℂ)) = (‖s‖ : ℂ) := by
+      have := congrArg (starRingEnd ℂ) h1
+      simpa [mul_comm] using this
+    have ht : ∀ u : ℂ, (gram2 s * !![((1 / 2 : ℝ) : ℂ), -u / 2;
+        (starRingEnd ℂ) (-u / 2), ((1 / 2 : ℝ) : ℂ)]).trace
+        = 1 - (s * (starRingEnd ℂ) u + (starRingEnd ℂ) s * u) / 2 := by
+      intro u
+      simp [gram2, Matrix.trace_fin_two, Complex.conj_ofNat]
+      ring
+    rw [ht, h1, h2]
+    simp
+
+/-- The same for two unit vectors given as the columns of `V` (Gram matrix `VᴴV`, overlap
+`s = (VᴴV)₀₁ = ⟨ψ|φ⟩`; `|s| ≤ 1` is Cauchy–Schwarz): the unambiguous value for equal priors is `1 − |⟨ψ|φ⟩|`. -/
+theorem unamb_two_unit_vectors (V : Matrix (Fin d) (Fin 2) ℂ) (h0 : (Vᴴ * V) 0 0 = 1)
+    (h1 : (Vᴴ * V) 1 1 = 1) :
+    IsGreatest (unambValues (Vᴴ * V) fun _ => 1 / 2) (1 - ‖(Vᴴ * V) 0 1‖) := by
+  have hG : (Vᴴ * V).PosSemidef := Matrix.posSemidef_conjTranspose_mul_self V
+  have e : Vᴴ * V = gram2 ((Vᴴ * V) 0 1) := ua_gram2_eq _ hG.isHermitian h0 h1
+  have hs := ua_offdiag_le_one _ hG h0 h1
+  have := unamb_two_states ((Vᴴ * V) 0 1) hs
+  rwa [← e] at this
+
+/-! ## The hypotheses are satisfiable -/
+
+section Examples2
+
+/-- hypotheses of `minErr_orthogonal_eq_one` / `helstrom_upper`: `|0⟩⟨0|`, `|1⟩⟨1|` with priors `(1/4, 3/4)`;
+`p₀ρ₀ − p₁ρ₁ = P − Q` with `P = diag(1/4, 0)`, `Q = diag(0, 3/4)` -/
+example : let ρ : Fin 2 → Matrix (Fin 2) (Fin 2) ℂ := fun i => Matrix.diagonal fun j => if j = i then 1 else 0
+    let p : Fin 2 → ℝ := ![1 / 4, 3 / 4]
+    (∀ i, (ρ i).PosSemidef) ∧ (∀ i, (ρ i).trace = 1) ∧ (∀ i, 0 ≤ p i) ∧ ∑ i, p i = 1 ∧
+      (∀ i j, i ≠ j → ρ i * ρ j = 0) ∧
+      (p 0 : ℂ) • ρ 0 - (p 1 : ℂ) • ρ 1
+        = Matrix.diagonal ![(1 / 4 : ℂ), 0] - Matrix.diagonal ![(0 : ℂ), 3 / 4] := by
+  intro ρ p
+  refine ⟨fun i => Matrix.PosSemidef.diagonal fun j => ?_, fun i => ?_, fun i => ?_, ?_, ?_, ?_⟩
+  · show (0 : ℂ) ≤ if j = i then 1 else 0
+    split_ifs
+    · exact zero_le_one
+    · exact le_refl _
+  · fin_cases i <;> simp [ρ, Matrix.trace]
+  · fin_cases i <;> norm_num [p]
+  · simp [p, Fin.sum_univ_two]; norm_num
+  · intro i j hij
+    fin_cases i <;> fin_cases j <;> simp_all [ρ, Matrix.diagonal_mul_diagonal]
+  · ext a b
+    fin_cases a <;> fin_cases b <;> simp [ρ, p]
+
+/-- hypotheses of `unamb_value_zero_of_all_dependent`: `ψ₀ = ψ₁` (Gram matrix all ones, kernel vector `(1, −1)`) -/
+example : let G : Matrix (Fin 2) (Fin 2) ℂ := !![1, 1; 1, 1]
+    UnambFeasible G (fun _ => 0) ∧ ∀ j, ∃ c : Fin 2 → ℂ, G *ᵥ c = 0 ∧ c j ≠ 0 := by
+  intro G
+  constructor
+  · refine unamb_zero_feasible G ?_
+    have := ua_psd_two 1 1 (by simp)
+    simpa [G] using this
+  · intro j
+    refine ⟨![1, -1], ?_, ?_⟩
+    · ext i; fin_cases i <;> simp [G, Matrix.mulVec, dotProduct, Fin.sum_univ_two]
+    · fin_cases j <;> simp
+
+/-- hypothesis of `unamb_two_states`: overlap `3i/5` (value `2/5`, cf. the checker example above) -/
+example : ‖(⟨0, 3 / 5⟩ : ℂ)‖ ≤ 1 := by
+  have : (⟨0, 3 / 5⟩ : ℂ) = ((3 / 5 : ℝ) : ℂ) * Complex.I := by
+    apply Complex.ext <;> simp
+  rw [this, norm_mul, Complex.norm_I, Complex.norm_real]
+  norm_num
+
+end Examples2
 
 end Toq.C10
